@@ -456,7 +456,7 @@ class Interp:
                         raise Raised("NonTermination", s, "loop state repeats with the test true")
                     seen.add(snap)
             n += 1
-            if n > 64:
+            if n > 2048:
                 raise AnalysisError("%s: while loop not bounded by abstract evaluation" % func.loc(s))
             try:
                 self.exec_block(s.body, env, func)
@@ -519,6 +519,15 @@ class Interp:
             return [Bits.source(list(b), False) for b in it.bytes]
         if isinstance(it, StrV):
             return [StrV([c]) for c in it.chars]
+        if isinstance(it, Sym) and it.op == "range" and len(it.args) in (1, 2):
+            lo, hi = (0, it.args[0]) if len(it.args) == 1 else it.args
+            la, lb = Lin.of(_int(lo)), Lin.of(_int(hi))
+            if la is not None and lb is not None:
+                d = lb + la.scale(-1)
+                if not d.terms and 0 <= d.const <= 4096:
+                    return [(la + Lin({}, i)).simplify() for i in range(d.const)]
+                if not d.terms and d.const < 0:
+                    return []
         return None
 
     # ------------------------------------------------------------------
@@ -1006,6 +1015,12 @@ class Interp:
                 return _cmp(op, a, b)
             except TypeError:
                 return CondV(type(op).__name__, a, b)
+        if isinstance(op, (ast.Eq, ast.NotEq, ast.Lt, ast.LtE, ast.Gt, ast.GtE)) and (isinstance(a, (Lin, Sym, Bits)) or isinstance(b, (Lin, Sym, Bits))):
+            la_, lb_ = Lin.of(a), Lin.of(b)
+            if la_ is not None and lb_ is not None:
+                d = la_ + lb_.scale(-1)
+                if not d.terms:
+                    return _cmp(op, d.const, 0)
         if isinstance(a, int) and isinstance(b, Bits) and not isinstance(op, (ast.Eq, ast.NotEq)):
             flip = {ast.Lt: ast.Gt, ast.LtE: ast.GtE, ast.Gt: ast.Lt, ast.GtE: ast.LtE}
             return self.compare(flip[type(op)](), b, a, node, func)
@@ -1277,7 +1292,7 @@ class Interp:
             return self.call_function(callee.func, args, kwargs, recv=callee.recv)
         if isinstance(callee, Ref) and callee.kind == "func":
             inl = self.hooks.get("inline_funcs")
-            if inl and (callee.obj.qualname in inl or (inl == "module" or (isinstance(inl, set) and "*module*" in inl)) and func is not None and callee.obj.module is func.module):
+            if inl and callee.obj.qualname not in self.hooks.get("no_inline", ()) and (callee.obj.qualname in inl or (inl == "module" or (isinstance(inl, set) and "*module*" in inl)) and func is not None and callee.obj.module is func.module):
                 return self.call_function(callee.obj, args, kwargs)
             return Sym("call", callee.obj.qualname, *args)
         if isinstance(callee, Ref) and callee.kind == "class":
@@ -1681,6 +1696,18 @@ def _b_int(it, args, kwargs, e, func):
     return Sym("int", *args)
 
 
+def _b_divmod(it, args, kwargs, e, func):
+    if len(args) == 2:
+        a, b = as_bits(args[0]), _int(args[1])
+        if isinstance(_int(args[0]), int) and isinstance(b, int) and b:
+            return divmod(_int(args[0]), b)
+        if a is not None and isinstance(b, int) and b > 0 and b & (b - 1) == 0:
+            k = b.bit_length() - 1
+            a = a.subst(it.asg) if it.asg else a
+            return (a.shr(k), a & Bits.const(b - 1))
+    return Sym("divmod", *args)
+
+
 def _b_getattr(it, args, kwargs, e, func):
     if len(args) >= 2 and isinstance(args[1], str):
         obj, name = args[0], args[1]
@@ -1733,6 +1760,20 @@ def _b_isinstance(it, args, kwargs, e, func):
 
 def _b_simple(name):
     def f(it, args, kwargs, e, func):
+        if name in ("min", "max") and len(args) >= 2 and not kwargs:
+            ls = [Lin.of(_int(a)) for a in args]
+            if all(l is not None for l in ls):
+                best = 0
+                decided = True
+                for i in range(1, len(ls)):
+                    d = ls[i] + ls[best].scale(-1)
+                    if d.terms:
+                        decided = False
+                        break
+                    if (d.const > 0) == (name == "max") and d.const != 0:
+                        best = i
+                if decided:
+                    return args[best]
         if name in ("list", "tuple") and len(args) == 1 and not kwargs:
             seq = it.concrete_iter(args[0])
             if seq is not None:
@@ -1767,7 +1808,7 @@ def _b_chr(it, args, kwargs, e, func):
     return Sym("chr", v)
 
 
-_BUILTINS = {"len": _b_len, "range": _b_range, "int": _b_int, "isinstance": _b_isinstance, "ord": _b_ord, "chr": _b_chr, "enumerate": _b_enumerate, "zip": _b_zip, "getattr": _b_getattr, "reversed": _b_reversed}
+_BUILTINS = {"len": _b_len, "range": _b_range, "int": _b_int, "isinstance": _b_isinstance, "ord": _b_ord, "chr": _b_chr, "enumerate": _b_enumerate, "zip": _b_zip, "getattr": _b_getattr, "reversed": _b_reversed, "divmod": _b_divmod}
 for _n in ("abs", "min", "max", "str", "float", "bool", "hex", "sorted", "list", "tuple", "bytes", "bytearray", "repr", "sum", "round", "pow"):
     _BUILTINS[_n] = _b_simple(_n)
 
